@@ -83,9 +83,10 @@ Definition run_completion (args : list N) : list N :=
       match new_doc t with
       | Done d =>
           match propose d line col with
-          | ROk None => [0; full_flag d line col; 0]
+          | ROk None => [0; full_flag_of d line col (ROk None); 0]
           | ROk (Some items) =>
-              0 :: full_flag d line col :: 1 :: nlen items :: concat (sort_nlists (map enc_item items))
+              0 :: full_flag_of d line col (ROk (Some items)) :: 1 :: nlen items
+                :: concat (sort_nlists (map enc_item items))
           | RFail _ => [1]
           end
       | Panic => [2]
